@@ -188,6 +188,23 @@ def run(ctx) -> None:
             why = "ready list is filtered by targets of the gates that are ready in this step"
     rep.add("C03.R3", f"{grn.qname}:gate-decides-first", ok, grn.loc(), why)
 
+    # every ready gate takes part in the block — first execution or re-execution alike
+    from .common import eval_bool
+
+    gate_sets = [n for n in walk_local(grn.node) if isinstance(n, ast.Assign) and isinstance(n.value, (ast.SetComp, ast.ListComp)) and any(isinstance(x, ast.Call) and dotted(x.func) == "isinstance" and "GateNode" in src(x) for x in ast.walk(n.value))]
+    okg = bool(gate_sets)
+    whyg = "the set of ready gates was not found"
+    for gs in gate_sets:
+        g_ = gs.value.generators[0]
+        isin = [src(x) for i_ in g_.ifs for x in ast.walk(i_) if isinstance(x, ast.Call) and dotted(x.func) == "isinstance" and "GateNode" in src(x)]
+        conj = g_.ifs[0] if len(g_.ifs) == 1 else ast.BoolOp(op=ast.And(), values=list(g_.ifs))
+        r = eval_bool(conj, {a: True for a in isin}) if g_.ifs else None
+        if r is not True or not (isinstance(g_.iter, ast.Name)):
+            okg, whyg = False, f"ready gates are collected under an extra condition ('{src(conj)}'): a gate that does not satisfy it (e.g. one that is re-executing) does not hold its targets back, so a target still activated through another gate starts in the deciding gate's own step"
+        else:
+            whyg = "every ready gate holds its targets back (the only condition is the node kind)"
+    rep.add("C03.R3", f"{grn.qname}:every-ready-gate-blocks", okg, grn.loc(), whyg)
+
     # completeness of the block: every target of a ready gate other than END and the gate itself is blocked
     from .common import must_reach_in_iteration
 
@@ -276,21 +293,7 @@ def run(ctx) -> None:
     rep.add("C03.R7", f"{gan_.qname}:all-declared-gates-consulted", okg, gan_.loc(), whyg)
 
     # ---- R5 ---------------------------------------------------------------------
-    sss = set(superstep_funcs(db))
-    for impl in execute_impl_funcs(db):
-        cfg = ctx.cfg(impl)
-        rd = reaching_defs(cfg)
-        for n in cfg.nodes:
-            for c in cfg.calls_at(n):
-                tg = [cal.func for cal in db.resolve_call(c, impl) if cal.func in sss]
-                if not tg:
-                    continue
-                a = bind_args(c, tg[0]).get("ready_nodes")
-                ok = False
-                if isinstance(a, ast.Name):
-                    ds = defs_reaching(cfg, rd, n, a.id)
-                    ok = bool(ds) and all(isinstance(v, ast.Call) and "get_ready_nodes" in call_names(db, v, impl) for d, v in ds)
-                rep.add("C03.R5", f"{impl.qname}:ready-list-provenance", ok, f"{impl.module.rel}:{n.lineno}", "superstep receives exactly get_ready_nodes(...)" if ok else f"the list handed to the superstep ('{src(a) if a is not None else '?'}') is not the scheduler's result")
+    check_ready_list_provenance(ctx, "C03.R5")
 
     # ---- R6 ---------------------------------------------------------------------
     cfg = ctx.cfg(gan)
@@ -365,6 +368,28 @@ def check_ready_conjunction(ctx, rule: str) -> None:
                     if not reaches(t, r):
                         ok, why = False, f"a ready verdict is reachable without evaluating {k}"
     rep.add(rule, f"{f.qname}:conjunction", ok, f.loc(), why)
+
+
+def check_ready_list_provenance(ctx, rule: str) -> None:
+    """The list a superstep executes is exactly what the scheduler returned for the current state: it is not
+    re-filtered, truncated (e.g. to the concurrency limit) or re-ordered on the way."""
+    db, rep = ctx.db, ctx.rep
+    sss = set(superstep_funcs(db))
+    for impl in execute_impl_funcs(db):
+        cfg = ctx.cfg(impl)
+        rd = reaching_defs(cfg)
+        for n in cfg.nodes:
+            for c in cfg.calls_at(n):
+                tg = [cal.func for cal in db.resolve_call(c, impl) if cal.func in sss]
+                if not tg:
+                    continue
+                a = bind_args(c, tg[0]).get("ready_nodes")
+                ok = False
+                if isinstance(a, ast.Name):
+                    ds = defs_reaching(cfg, rd, n, a.id)
+                    ok = bool(ds) and all(isinstance(v, ast.Call) and "get_ready_nodes" in call_names(db, v, impl) for d, v in ds)
+                rep.add(rule, f"{impl.qname}:ready-list-provenance", ok, f"{impl.module.rel}:{n.lineno}", "superstep receives exactly get_ready_nodes(...)" if ok else f"the list handed to the superstep ('{src(a) if a is not None else '?'}') is not the scheduler's result")
+
 
 
 def check_node_options_used(ctx, rule: str) -> None:
